@@ -37,6 +37,16 @@ ObsFails(o, step) ==
         THEN {"LinkDef|pair above the threshold not linked in either direction@" \o step} ELSE {})
   \cup (IF o.rho # <<>> /\ o.filtered = 0 /\ E * o.rho[2] > o.rho[1] * N * (N - 1)
         THEN {"DensityBound|set_link_density@" \o step} ELSE {})
+  \* ... and miss it by at most the pairs tied at the selected value (here: within the margin of the threshold),
+  \* the selected pair itself and rounding (3 ordered pairs)
+  \cup (IF o.rho # <<>> /\ o.filtered = 0 /\ o.nl = 0 /\
+           (E + 3 + Cardinality({p \in (1..N) \X (1..N) : p[1] # p[2] /\ Abs(Abs(o.S6[p[1]][p[2]]) - o.thr) <= Margin}))
+              * o.rho[2] < o.rho[1] * N * (N - 1)
+        THEN {"DensityMiss|set_link_density@" \o step} ELSE {})
+  \* the threshold selected for a prescribed density is an order statistic of the CURRENT off-diagonal similarities,
+  \* hence one of them
+  \cup (IF o.rho # <<>> /\ ~\E a \in 1..N : \E b \in 1..N : a # b /\ Abs(Abs(o.S6[a][b]) - o.thr) <= Margin
+        THEN {"QuantileDef|threshold is not a value of the similarity matrix@" \o step} ELSE {})
 Verdict(e) ==
   LET f == UNION {ObsFails(e.steps[k].obs, e.steps[k].after) : k \in 1..Len(e.steps)} IN
   IF f = {} THEN <<"ACCEPT", "", "", e.family>> ELSE <<"REJECT", "Multi", JoinSet(f), e.family>>
